@@ -293,6 +293,7 @@ def unmarked_any(name, d):
         },
         hints={"minindex = min(indices)": [f"minindex == {_NS0}"]},
         merge_branches=False,
+        extract_free=True,
     )
 
 
@@ -339,3 +340,104 @@ def _any_call(fn, a):
 CONTRACTS[BFW + "._insert#unmarked-any"].runtime = Runtime(_any_cases, _any_build(None), call=_any_call)
 CONTRACTS[BFW + "._insert#unmarked-any-classdefs"].runtime = Runtime(_any_cases, _any_build("classDefs"), call=_any_call)
 CONTRACTS[BFW + "._insert#unmarked-any-markclassdefs"].runtime = Runtime(_any_cases, _any_build("markClassDefs"), call=_any_call)
+
+
+# =====================================================================================================================
+# TWO generated features, exactly one of them with an insert marker (not in the split position): the dependent-feature logic.
+#   * marker on the SECOND: the first (unmarked) feature is a dependent and goes directly in front of the second, at the marker;
+#   * marker on the FIRST: the second (unmarked) feature is appended after everything.
+
+_F1 = Val(Ref(NODE), z3.Const("c17_feature1", T.RefSort))
+
+
+def _sub(s, k):
+    """the clause vocabulary above speaks about features[0]; re-target it to features[k]"""
+    return s.replace("features[0]", f"features[{k}]")
+
+
+_HINTS2 = {
+    "markerIndex = block.statements.index(comment)": HINTS["markerIndex = block.statements.index(comment)"],
+    "del block.statements[markerIndex]": HINTS["del block.statements[markerIndex]"],
+    "index = statements.index(block)": ["0 <= index", f"index <= len({S0})", f"len({S0}[:index]) == index"],
+    "index = statements.index(block) + 1": ["0 <= index", f"index <= len({S0})", f"len({S0}[:index]) == index"],
+    "statements.remove(block)": [f"statements := {S0}[:index] + {S0}[index + 1:]"],
+    "statements.insert(index, feature)": ["statements := gP + gM + gS + gT"],
+    "statements.insert(index, features[i])": ["statements := gP + gM + gS + gT"],
+    "minindex = min(indices)": ["minindex := len(gP)", "statements[:minindex] == gP", "statements[minindex:] == gM + gS + gT"],
+    "feaFile.statements = statements = statements[:minindex] + lookups + statements[minindex:]": ["statements := gP + lookups + gM + gS + gT", "feaFile.statements := gP + lookups + gM + gS + gT"],
+    "feaFile.statements = statements = others + statements": ["feaFile.statements := others + gP + gL + gM + gS + gT"],
+}
+_GHOST2 = {
+    "index = len(statements)": ["g_app = True"],
+    "index = statements.index(block)": [f"gP = {S0}[:index]", f"gS = {S0}[index:]", "g_app = False"],
+    "index = statements.index(block) + 1": [f"gP = {S0}[:index]", f"gS = {S0}[index:]", "g_app = False"],
+    "statements.remove(block)": [f"gS = {S0}[index + 1:]"],
+    "statements.insert(index, feature)": ["gM = gM if g_app else [feature] + gM", "gT = gT + [feature] if g_app else gT"],
+    "statements.insert(index, features[i])": ["gM = [features[i]] + gM"],
+    "feaFile.statements = statements = statements[:minindex] + lookups + statements[minindex:]": ["gL = [] + lookups"],
+}
+
+
+def insert_two(name, marked):
+    """marked: index (0 or 1) of the feature that has the marker; the other one has none"""
+    fm, fu = f"features[{marked}]", f"features[{1 - marked}]"
+    M_, b_, c_, m_, p_, CB_, CA_ = (_sub(x, marked) for x in (MARKED, b, c, m, p, CB, CA))
+    gen = f"[{fu}, {fm}]" if marked == 1 else f"[{fm}]"
+    tail = "" if marked == 1 else f" + [{fu}]"
+    splice = lambda cut, cut2: f"{F} == {S0}[:{cut}] + {LK} + {gen} + {S0}[{cut2}:]{tail}"  # noqa: E731
+    ens = {
+        "alone": f"implies({CB_} and {CA_}, {splice(p_, p_ + ' + 1')})",
+        "top": f"implies({CB_} and not {CA_}, {splice(p_, p_)})",
+        "bottom": f"implies(not {CB_} and {CA_}, {splice(p_ + ' + 1', p_ + ' + 1')})",
+        "marked-block": f"{b_}.statements == {b_}.statements0[:{m_}] + {b_}.statements0[{m_} + 1:]",
+    }
+    return contract(
+        BFW + "._insert",
+        name=name,
+        props=["C17"],
+        params={"self": Ref("c17_Writer"), "feaFile": Ref(FEAFILE), "lookups": Opt(NODES), "features": Const([_F0, _F1]),
+                "classDefs": Const(None), "anchorDefs": Const(None), "markClassDefs": Const(None)},
+        globals=_GLOBALS,
+        requires=[
+            f"{M_} and {b_} in feaFile.statements and {c_} in {b_}.statements and {c_}.kind == 'Comment'",
+            f"{fu}.name not in {IC}",
+            f"not (not {CB_} and not {CA_})",  # the split case is not covered by this variant
+            "features[0] != features[1]", "allocated(features[0])", "allocated(features[1])", f"allocated({b_}) and allocated({c_})",
+        ],
+        modifies=[f"{FEAFILE}.statements", f"{NODE}.statements"],
+        locals={"inserted": Dict(INT, BOOL), "others": NODES, "indices": List(INT)},
+        ensures=ens,
+        canaries={"unchanged": f"{F} == {S0}"},
+        hints={k: v for k, v in _HINTS2.items() if k != ("index = len(statements)" if marked == 1 else "statements.insert(index, features[i])")},
+        ghost_vars={"gP": (NODES, "[]"), "gS": (NODES, "[]"), "gL": (NODES, "[]"), "gM": (NODES, "[]"), "gT": (NODES, "[]"), "g_app": (BOOL, "False")},
+        ghost={k: v for k, v in _GHOST2.items() if k != ("index = len(statements)" if marked == 1 else "statements.insert(index, features[i])")},
+        merge_branches=False,
+    )
+
+
+insert_two("two-second-marked", 1)
+insert_two("two-first-marked", 0)
+
+
+def _two_cases(marked_tag):
+    def gen(rng, n):
+        blocks = [["M"], ["M", "R"], ["R", "M"], ["C", "M"], ["M", "C"], ["C", "M", "R"], ["R", "C", "M", "C"], ["M", "R", "R"], ["C", "M", "C"]]
+        out = [{"top": ([["S"]] if pre else []) + [[marked_tag, ks]] + ([["S"]] if post else []), "features": ["kern", "dist"], "lookups": lk, "classdefs": 0}
+               for ks in blocks for pre in (False, True) for post in (False, True) for lk in (0, 2)]
+        rng.shuffle(out)
+        return out[:max(n, 30)]
+
+    return gen
+
+
+def _two_build(case):
+    from vcheck.hooks import c17 as H
+
+    w, fea, gen = H.build_insert_case(case)
+    w.setContext(None, fea)
+    M.snapshot(fea, extra=gen["features"] + gen["lookups"])
+    return {"self": w, "feaFile": fea, "lookups": gen["lookups"] or None, "features": gen["features"], "classDefs": None, "anchorDefs": None, "markClassDefs": None}
+
+
+CONTRACTS[BFW + "._insert#two-second-marked"].runtime = Runtime(_two_cases("dist"), _two_build, call=_one_call)
+CONTRACTS[BFW + "._insert#two-first-marked"].runtime = Runtime(_two_cases("kern"), _two_build, call=_one_call)
